@@ -531,6 +531,10 @@ def execS (ctx : Ctx) : Nat → Env → Ty → Stmt → M (Flow × Env)
     | .assign p e => do
       let l ← evalPlace ctx fuel env p
       let v ← evalE ctx fuel env e
+      -- an array literal assigned to a place that holds a dynamic array is a (fresh) dynamic array
+      let v ← match e, v, (← readLoc l) with
+        | .arrLit _, .arr es, .dyn _ => do pure (.dyn (← newDyn es))
+        | _, v, _ => pure v
       assignTo l v
       pure (.next, env)
     | .opAssign op t p e => do
